@@ -53,7 +53,9 @@ func runC20(e *Engine, tier Tier) *PropRun {
 	return &PropRun{
 		Results: rs, FUC: fucList(rs),
 		Claim: func(o *Obligation) bool {
-			return (o.Kind == "post" || o.Kind == "inv-init" || o.Kind == "inv-pres") && strings.Contains(o.Name, "cost()")
+			// every obligation generated from a @C20 clause: the cost bounds themselves and the auxiliary clauses they
+			// rest on (peak / look-ahead facts, cache monotonicity, the tagged preconditions at call sites)
+			return o.Kind == "post" || o.Kind == "pre" || o.Kind == "inv-init" || o.Kind == "inv-pres"
 		},
 		Level:       "other",
 		Explanation: "Cost contracts over a ghost step counter: one step per loop-header passage plus the assumed cost of library calls, concatenations and conversions. Every function under a cost contract is proved to spend at most a linear function of the bytes it consumes (cursor advance) plus a constant, or - on an error path, taken at most once per run - of the input length; the main loops of Tokenize / TokenizeContext carry the telescoped bound as an invariant, so a whole run is linear in len(input) (the line-table pre-scan is one pass). Position queries (toSQLPosition) are bounded by the distance from the previous query plus a binary search. The token conversion costs a constant per token plus four steps per byte of token text handed to the keyword re-typing functions (ghost accumulator acc(), fed by the `accrues` clause of convertSingleToken); the parser's dotted-name, type-parameter and mode-word builders cost a constant per token plus the length of the text built; the dollar-quote stripper of the scanner is one pass.",
